@@ -244,8 +244,10 @@ impl Prop for C22 {
         let redundant_stars = |r: &Vec<(String, Vec<String>)>| -> Vec<usize> {
             r.iter().map(|(s, _)| s.as_bytes().windows(2).filter(|w| w[0] == b'*' && matches!(w[1], b'.' | b'#' | b'[' | b':')).count()).collect()
         };
-        if canon(&got) == canon(&want) && redundant_stars(&got) != redundant_stars(&want) {
-            return Verdict::fail(format!("with placeholders the output is {:?}, the same nest without the removed selectors gives {:?} (a universal selector was added or lost)\n{src}", got.iter().map(|x| &x.0).collect::<Vec<_>>(), want.iter().map(|x| &x.0).collect::<Vec<_>>()));
+        // (one direction only: the generator writes no `*`, so a star the twin has and the output lacks is the twin's own
+        // `*` for an emptied compound continued by `&`: `:not(%p) { &[k] {} }` is `[k]`, the twin `* { &[k] {} }` is `*[k]`)
+        if canon(&got) == canon(&want) && redundant_stars(&got).iter().zip(redundant_stars(&want)).any(|(g, w)| *g > w) {
+            return Verdict::fail(format!("with placeholders the output is {:?}, the same nest without the removed selectors gives {:?} (a universal selector was added)\n{src}", got.iter().map(|x| &x.0).collect::<Vec<_>>(), want.iter().map(|x| &x.0).collect::<Vec<_>>()));
         }
         if canon(&got) != canon(&want) {
             return Verdict::fail(format!("with placeholders the output is {:?}, the same nest without the removed selectors gives {:?}\n{src}", canon(&got), canon(&want)));
